@@ -675,3 +675,65 @@ def emit_order_on_source(R, ctx):
             R.ok(inst, sample='%s: %s' % (label, msg))
         else:
             R.violation(inst, 'simp-order-src:%s' % label, msg, where(W.hlp, W.hlp.funcs['expr_simp']))
+
+
+def simp_on_source(ctx):
+    """[(label, ok, message)]: the full simplification of family members run on the interpreted classes (their own == decides the fixpoint, their own hash and
+    ordering key the canonical order): every member that holds a signed constant, plus every sixth member of the family."""
+    key = ('simp-src', id(ctx))
+    if key in _CACHE:
+        return _CACHE[key]
+    W = SimpWorld(ctx)
+    vals = SE.valuations()
+    out = []
+    A = SE.atoms()
+    x = A['x']
+    extra = [('signed-const', SE.Op('>>', SE.SC(-8), SE.C(1))), ('signed-const', SE.Op('>>', SE.Op('&', x, SE.SC(-16)), SE.C(4))), ('signed-const', SE.Op('a>>', SE.SC(-8), SE.C(1))),
+             ('signed-const', SE.Op('+', x, SE.SC(-1))), ('signed-const', SE.Op('==', SE.SC(-1), SE.C(0xFFFFFFFF))), ('signed-const', SE.Op('&', x, SE.SC(-1, 32))),
+             ('signed-const', SE.Op('>>', SE.Op('&', A['b'], SE.SC(-16, 8)), SE.C(4, 8))), ('signed-const', SE.ExprCond(SE.SC(-1), x, A['y'])), ('signed-const', SE.Sl(SE.SC(-2), 0, 16)),
+             ('signed-const', SE.Comp((SE.SC(-1, 8), 0, 8), (SE.C(0, 8), 8, 16))), ('signed-const', SE.Op('parity', SE.SC(-1, 8))), ('signed-const', SE.Op('<<', SE.SC(-1, 8), SE.C(1, 8)))]
+    fam = [(l, e) for i, (l, e) in enumerate(SE.family()) if (SE._has_signed(e) or i % 6 == 0) and l != 'rot-merge-mixed'] + extra
+    for label, e in fam:
+        st, r = W.call('expr_simp', W.from_native(e))
+        lab = 'simp-src[%s]' % label
+        if st != 'ok' or not isinstance(r, SrcObj):
+            out.append((lab, False, 'expr_simp(%s) on the interpreted classes %s %s' % (SE.show(e), st, r)))
+            continue
+        try:
+            got = W.to_native(r)
+            SE.check_typed(got, lenient_const_pieces=True)
+            if SE.size_of(got) != SE.size_of(e):
+                out.append((lab, False, 'expr_simp(%s) = %s has %d bits, the input %d' % (SE.show(e), SE.show(got), SE.size_of(got), SE.size_of(e))))
+                continue
+            bad = None
+            for env in vals:
+                if SE.value(got, env) != SE.value(e, env):
+                    bad = env
+                    break
+        except (SE.IllTyped, PyRaise, AnalysisError) as ex:
+            out.append((lab, False, 'expr_simp(%s) gives an ill-formed expression (%s)' % (SE.show(e), ex)))
+            continue
+        if bad is not None:
+            out.append((lab, False, 'expr_simp(%s) = %s: for %s the input is %#x, the result %#x' % (SE.show(e), SE.show(got), ', '.join('%s=%#x' % (n_, bad[n_]) for n_ in sorted(SE._ids(e))) or 'any valuation',
+                                                                                                      SE.value(e, bad), SE.value(got, bad))))
+        else:
+            out.append((lab, True, ''))
+    _CACHE[key] = out
+    return out
+
+
+def emit_simp_on_source(R, ctx):
+    from .core import where
+    W = world(ctx)
+    seen_bad, counts = {}, {}
+    for label, ok, msg in simp_on_source(ctx):
+        counts[label] = counts.get(label, 0) + 1
+        if not ok:
+            seen_bad.setdefault(label, msg)
+    for label in sorted(counts):
+        if label in seen_bad:
+            R.violation(label, 'simp-src:%s' % label[9:-1], seen_bad[label], where(W.hlp, W.hlp.funcs['expr_simp']))
+        else:
+            R.ok(label, sample='%s: %d members keep width and value when simplified on the interpreted classes' % (label, counts[label]))
+            for i in range(min(counts[label] // 3, 8)):
+                R.ok('%s#%d' % (label, i))
